@@ -253,6 +253,7 @@ class ImplicitArrayMatrix(Matrix):
         """
         if self._array is None:
             self._array = self._construct_array()
+            self._array.flags.writeable = False
         return self._array
 
     @abc.abstractmethod
@@ -435,6 +436,7 @@ class SymmetricMatrix(SquareMatrix):
 
     def _compute_eigendecomposition(self) -> None:
         self._eigval, eigvec = nla.eigh(self.array)
+        self._eigval.flags.writeable = False
         self._eigvec = OrthogonalMatrix(eigvec)
 
     @property
@@ -1312,6 +1314,8 @@ class DenseSquareMatrix(InvertibleMatrix, ExplicitArrayMatrix):
         """Pivoted LU factorisation of matrix."""
         if self._lu_and_piv is None:
             self._lu_and_piv = sla.lu_factor(self._array, check_finite=False)
+            for array in self._lu_and_piv:
+                array.flags.writeable = False
             self._lu_transposed = False
         return self._lu_and_piv
 
@@ -1356,6 +1360,8 @@ class InverseLUFactoredSquareMatrix(InvertibleMatrix, ImplicitArrayMatrix):
                 transpose of inverse of array.
         """
         super().__init__(inv_array.shape)
+        for array in (inv_array, *inv_lu_and_piv):
+            array.flags.writeable = False
         self._inv_array = inv_array
         self._inv_lu_and_piv = inv_lu_and_piv
         self._inv_lu_transposed = inv_lu_transposed
@@ -1558,6 +1564,8 @@ class EigendecomposedSymmetricMatrix(
         if isinstance(eigvec, np.ndarray):
             eigvec = OrthogonalMatrix(eigvec)
         super().__init__(eigvec.shape)
+        if isinstance(eigval, np.ndarray):
+            eigval.flags.writeable = False
         self._eigvec = eigvec
         self._eigval = eigval
         if not isinstance(eigval, np.ndarray) or eigval.size == 1:
@@ -1659,6 +1667,7 @@ class SoftAbsRegularizedPositiveDefiniteMatrix(
             raise ValueError(msg)
         self._softabs_coeff = softabs_coeff
         self.unreg_eigval, eigvec = nla.eigh(symmetric_array)
+        self.unreg_eigval.flags.writeable = False
         eigval = self.softabs(self.unreg_eigval)
         super().__init__(eigvec, eigval)
 
